@@ -39,11 +39,24 @@ def budget(tier):
 
 
 def gen(R, tier):
+    if R.chance(0.04):
+        return gen_polymer(R)
     case = resgen.gen_resolvable(R, tier, kinds=('cut', 'cut', 'levels', 'fragset', 'fragset'))
     if case is None:
         return None
     case['perm_seed'] = R.randint(0, 10 ** 6)
     return case
+
+
+POLY = ['{[#A]|%d}.{#A=[!]COC[!]}', '{[#T][#A]|%d[#T]}.{#A=[!]CC(C)C[!],#T=[!]C}', '{[#HA]|%d}.{#HA=[$]CC([$])C(=O)OCCCCCC}',
+        '{[#A]|%d}.{#A=[>]CC([<])c1ccccc1}', '{[#A]|%d[#B]|3}.{#A=[$]CC([$])C(=O)OCCCC,#B=[$]COC[$]}']
+
+
+def gen_polymer(R):
+    """long homopolymers: >= 9 coarse nodes (also joined by shared atoms), > 128 atoms, repeat units of > 20 atoms"""
+    s = R.choice(POLY) % R.randint(9, 18)
+    return dict(input=s, last_all_atom=True, legacy=True, kind='polymer', dedicated=False, nlevels=1, nfr=9,
+                perm_seed=R.randint(0, 10 ** 6), features=['polymer_of_9+_units'])
 
 
 def nontrivial(case):
